@@ -116,6 +116,7 @@ func TestVerifC06UpstreamRead(t *testing.T) {
 		want := vc06ReadExpect(next.Wire)
 
 		classes := []string{"kind-" + next.Kind, "net-" + string(nw)}
+
 		nt := ""
 		if next.Inconsistent {
 			nt = string(nw) + string(next.Wire)
@@ -160,6 +161,11 @@ type vc06Server struct {
 	// segments, cut split octets into the frame (prefix included).
 	split int
 
+	// dup makes the UDP side send every reply twice: the second copy stays
+	// queued on the client's pooled socket and is read by its next exchange.
+	// tcpDown makes the TCP side close the connection instead of replying.
+	dup, tcpDown bool
+
 	pc net.PacketConn
 	ln net.Listener
 	wg sync.WaitGroup
@@ -194,6 +200,12 @@ func vc06StartServer(t *testing.T) (s *vc06Server) {
 
 			if r := s.get(buf[:n]); r != nil {
 				_, _ = s.pc.WriteTo(r, addr)
+				s.mu.Lock()
+				dup := s.dup
+				s.mu.Unlock()
+				if dup {
+					_, _ = s.pc.WriteTo(r, addr)
+				}
 			}
 		}
 	}()
@@ -217,6 +229,13 @@ func vc06StartServer(t *testing.T) (s *vc06Server) {
 
 					req := make([]byte, l)
 					if _, rerr := io.ReadFull(c, req); rerr != nil {
+						return
+					}
+
+					s.mu.Lock()
+					down := s.tcpDown
+					s.mu.Unlock()
+					if down {
 						return
 					}
 
@@ -270,6 +289,13 @@ func (s *vc06Server) setSplit(n int) {
 	s.split = n
 }
 
+func (s *vc06Server) setFaults(dup, tcpDown bool) {
+	s.mu.Lock()
+	defer s.mu.Unlock()
+
+	s.dup, s.tcpDown = dup, tcpDown
+}
+
 func (s *vc06Server) close() {
 	_ = s.pc.Close()
 	_ = s.ln.Close()
@@ -279,7 +305,7 @@ func (s *vc06Server) close() {
 func TestVerifC06UpstreamExchange(t *testing.T) {
 	st := vstat.New("C06", "forward.exchange",
 		"rapid (upstream network any/udp/tcp, history of valid marker exchanges, next reply as above, served with the request's ID or its own) through the real UpstreamPlain.Exchange against scripted loopback UDP+TCP servers; oracle: accepted iff the reply's own bytes decode and ID, question name (case-insensitive) and type match, and then the result equals that decode; non-trivial = reply inconsistent; distinct by (network, reply bytes)",
-		"accepted", "rejected", "kind-header-only", "kind-pointer", "kind-counts", "kind-truncated", "tcp-reply-in-two-segments")
+		"accepted", "rejected", "kind-header-only", "kind-pointer", "kind-counts", "kind-truncated", "tcp-reply-in-two-segments", "stray-duplicate-on-pooled-udp-socket", "tcp-closed-without-reply", "stray-duplicate-and-tcp-fallback-fails")
 	st.Finish(t)
 
 	var srv *vc06Server
@@ -301,7 +327,13 @@ func TestVerifC06UpstreamExchange(t *testing.T) {
 		defer u.Close()
 
 		ctx := context.Background()
+		// Faults of the upstream: the last history reply is sent twice over UDP
+		// (its second copy is what the next exchange reads first from the
+		// pooled socket), and TCP connections are closed without a reply.
+		dup := nw != NetworkTCP && rapid.IntRange(0, 3).Draw(t, "dupLastHistoryReply") == 0
+		tcpDown := rapid.IntRange(0, 3).Draw(t, "tcpDown") == 0
 		for i, n := 0, rapid.IntRange(1, 3).Draw(t, "histLen"); i < n; i++ {
+			srv.setFaults(dup && i == n-1, false)
 			w, hm := vwire.HistoryMsg(t, i)
 			req := (&dns.Msg{}).SetQuestion(hm.Question[0].Name, hm.Question[0].Qtype)
 			srv.set(func(q []byte) []byte {
@@ -340,8 +372,10 @@ func TestVerifC06UpstreamExchange(t *testing.T) {
 		}
 
 		srv.setSplit(split)
+		srv.setFaults(false, tcpDown)
 		resp, _, err := u.Exchange(ctx, req)
 		srv.setSplit(0)
+		srv.setFaults(false, false)
 
 		// Reference.
 		sent := append([]byte(nil), reply...)
@@ -353,7 +387,22 @@ func TestVerifC06UpstreamExchange(t *testing.T) {
 		accept := refErr == nil && len(sent) >= minDNSMessageSize && ref.Id == req.Id && len(ref.Question) == 1 &&
 			ref.Question[0].Qtype == req.Question[0].Qtype && strings.EqualFold(ref.Question[0].Name, req.Question[0].Name)
 
+		// With these faults a matching reply may legitimately not be obtained;
+		// what Exchange returns without an error must still be that reply.
+		mayFail := (nw == NetworkTCP && tcpDown) || (dup && (nw == NetworkUDP || tcpDown))
+
 		classes := []string{"kind-" + next.Kind, "net-" + string(nw)}
+		if dup {
+			classes = append(classes, "stray-duplicate-on-pooled-udp-socket")
+		}
+
+		if tcpDown && nw != NetworkUDP {
+			classes = append(classes, "tcp-closed-without-reply")
+		}
+
+		if dup && tcpDown && nw == NetworkAny {
+			classes = append(classes, "stray-duplicate-and-tcp-fallback-fails")
+		}
 		if split > 0 && nw == NetworkTCP {
 			classes = append(classes, "tcp-reply-in-two-segments")
 		}
@@ -371,7 +420,7 @@ func TestVerifC06UpstreamExchange(t *testing.T) {
 
 		st.Case(nt, classes...)
 
-		if accept {
+		if accept && !(mayFail && err != nil) {
 			if err != nil {
 				t.Fatalf("exchange %s: reply %s %x decodes on its own and matches the query, but Exchange failed: %v", nw, next.Kind, sent, err)
 			}
@@ -379,7 +428,7 @@ func TestVerifC06UpstreamExchange(t *testing.T) {
 			if g, w := vwire.Describe(resp, nil), vwire.Describe(ref, nil); g != w {
 				t.Fatalf("exchange %s: reply %s %x:\nexchange returned: %s\nown bytes decode:  %s", nw, next.Kind, sent, g, w)
 			}
-		} else if err == nil {
+		} else if !accept && err == nil {
 			t.Fatalf("exchange %s: request %v id %d, reply %s %x does not decode on its own to a matching answer (decode error: %v), but Exchange accepted it as:\n%s",
 				nw, req.Question, req.Id, next.Kind, sent, refErr, vwire.Describe(resp, nil))
 		}
